@@ -224,6 +224,10 @@ impl ColumnBuffer {
     }
 
     fn push_present(&mut self, new_present: Option<&[u8]>, count: usize) {
+        // First values with a null map: everything pushed so far was present.
+        if self.present.is_none() && new_present.is_some() {
+            self.init_present();
+        }
         if let Some(all_present) = self.present.as_mut() {
             if let Some(new_present) = new_present {
                 for i in 0..count {
